@@ -6,7 +6,7 @@ import ast
 from .. import sym as S
 from ..engine import Check
 from ..loader import AnalysisError
-from ..rulelib import (_typestate, appends_in, calls_named, carried_with_entry, check_const, check_layout,
+from ..rulelib import (simulate_generator, _typestate, appends_in, calls_named, carried_with_entry, check_const, check_layout,
                        classify_effect, conds_sym, eval_conds, fld, inst_attr, loop_carried, loops_of, reach_table,
                        self_stores, spec_expr)
 
@@ -78,13 +78,96 @@ def run(chk: Check):
     if not loops:
         raise AnalysisError("ANCHOR-VANISHED HDS._iter_runs has no while loop")
     loop = loops[0]
+    sim = _runs_by_evaluation(chk, ctx, loop, env, bat)
+    _iter_runs_structure(chk, ctx, loop, env, bat, dom, sim)
+    _read_structure(chk, hk)
+
+
+def _canonical(runs, start):
+    """(file offset | None, size) runs from guest offset `start` -> maximal segments (guest offset, size, file offset | None)."""
+    segs = []
+    pos = start
+    if not all((off is None or (isinstance(off, int) and not isinstance(off, bool))) and isinstance(size, int) and not isinstance(size, bool)
+               for off, size in runs):
+        return ("not (file offset | None, size) runs", tuple(runs))
+    for off, size in runs:
+        if segs and ((segs[-1][2] is None and off is None) or (segs[-1][2] is not None and off is not None and segs[-1][2] + segs[-1][1] == off)):
+            segs[-1] = (segs[-1][0], segs[-1][1] + size, segs[-1][2])
+        else:
+            segs.append((pos, size, off))
+        pos += size
+    return segs
+
+
+def _runs_by_evaluation(chk: Check, ctx, loop, env, bat):
+    """_iter_runs decided on model images: the BAT is a concrete tuple, the loop's transition terms are evaluated round by round
+    and the yielded (file offset | None, size) runs are compared - as a map guest range -> file range | sparse, so independent of
+    how clusters are coalesced - with bat[i] * unit * 512 + offset % cluster for allocated and `sparse` for zero entries."""
+    rule = ("K-KIND", "runs-by-evaluation")
+    P1, P2 = ("p", ctx.qual, 1), ("p", ctx.qual, 2)
+    models = []
+    for sigv, tracks in ((V2, 8), (V1, 8), (V2, 2048), (V1, 63)):
+        cs = tracks * 512
+        unit = 1 if sigv == V1 else tracks
+        first = 2048 // unit if sigv == V2 else 2048  # first data cluster, in BAT units
+        step = 1 if sigv == V2 else tracks
+        a = first
+        bats = [
+            (a, a + step, a + 2 * step, a + 3 * step),            # contiguous
+            (0, 0, 0, 0),                                          # all sparse
+            (a, 0, a + step, 0),                                   # alternating
+            (0, a, 0, a + step),
+            (a + 2 * step, a + step, a, a + 5 * step),             # out of order
+            (a, a + step, 0, 0),
+            (0, 0, a, a + step),
+            (a, a + 2 * step, a + 3 * step, 0),
+        ]
+        for b in bats:
+            for off, ln in ((0, 4 * cs), (0, cs), (512, cs), (cs - 512, 1024), (cs + 512, 2 * cs), (512, 3 * cs + 1024), (2 * cs, 2 * cs), (3 * cs + 512, 512)):
+                models.append((sigv, tracks, b, off, ln))
+    bad = []
+    n = 0
+    for sigv, tracks, b, off, ln in models:
+        cs = tracks * 512
+        unit = 1 if sigv == V1 else tracks
+        base = {env["sig"]: sigv, env["tracks"]: tracks, env["v1"]: 4 * tracks, env["v2"]: 4 * tracks, env["bat_entries"]: 4, bat: b, P1: off, P2: ln}
+        got = simulate_generator(chk, ctx, loop, base=base)
+        if got is None or got == ("raise",) or not all(isinstance(x, tuple) and len(x) == 2 for x in got):
+            return None
+        n += 1
+        want = []
+        pos, rem = off, ln
+        while rem > 0:
+            i, o = divmod(pos, cs)
+            size = min(cs - o, rem)
+            want.append((None if b[i] == 0 else b[i] * unit * 512 + o, size))
+            pos += size
+            rem -= size
+        if _canonical(got, off) != _canonical(want, off):
+            bad.append(f"{'v1' if sigv == V1 else 'v2'} image, cluster {cs} bytes, BAT {b}, request ({off}, {ln}): runs {got}, specified {want}")
+    chk.decide(not bad, *rule, loop,
+               f"the runs of {n} model requests (4-cluster images of both versions; contiguous, sparse, alternating and out-of-order BATs; "
+               f"aligned and unaligned requests) map every guest range to bat[i]*unit*512 + offset%cluster, or to `sparse` for a zero entry"
+               if not bad else "; ".join(bad[:2]))
+    return not bad
+
+
+def _iter_runs_structure(chk: Check, ctx, loop, env, bat, dom, sim):
+    """The finer-grained rules on the loop's variables (better diagnostics); where the variables cannot be identified the
+    decision of `runs-by-evaluation` stands."""
+    R = chk.R
+
+    def cannot(kind, inst, node, why):
+        if sim is None:
+            chk.undecided(kind, inst, node, why)
+
     carried = loop_carried(chk, ctx, loop)
     pname, pinfo = carried_with_entry(chk, carried, ("p", ctx.qual, 1))
     rname, rinfo = carried_with_entry(chk, carried, ("p", ctx.qual, 2))
     oname, oinfo = carried_with_entry(chk, carried, S.C(None))
     sname, sinfo = carried_with_entry(chk, carried, S.C(0))
     if not all((pinfo, rinfo, oinfo, sinfo)):
-        chk.undecided("K-SPLIT", "loop-variables", loop, "cannot identify offset / length / run offset / run size loop variables")
+        cannot("K-SPLIT", "loop-variables", loop, "cannot identify offset / length / run offset / run size loop variables")
         return
     POS, REM, RUNOFF, RUNSIZE = pinfo["phi"], rinfo["phi"], oinfo["phi"], sinfo["phi"]
     env.update(POS=POS, REM=REM, cs=spec_expr("tracks * 512", env), mult=spec_expr("1 if sig == V1 else tracks", env),
@@ -115,7 +198,7 @@ def run(chk: Check):
                 if S.equiv(val, S.op("add", RUNSIZE, env["STEP"]), domain=dom2, n=60).equal is True:
                     merge_stmt = n
     if merge_stmt is None:
-        chk.undecided("K-KIND", "merge-predicate", loop, "cannot find the statement that extends the current run")
+        cannot("K-KIND", "merge-predicate", loop, "cannot find the statement that extends the current run")
         return
     conds = conds_sym(chk, ctx, merge_stmt)
     # read_offset as the code spells it: the value the run-offset variable is (re)started with inside the loop
@@ -127,7 +210,7 @@ def run(chk: Check):
     if starts and all(x == starts[0] for x in starts):
         ro = starts[0]
     if ro is None:
-        chk.undecided("K-KIND", "merge-predicate", merge_stmt, "cannot find the current cluster's physical offset in the merge condition")
+        cannot("K-KIND", "merge-predicate", merge_stmt, "cannot find the current cluster's physical offset in the merge condition")
         return
     chk.formula("K-FORMULA", "cluster-address", merge_stmt, ro, ro_want, domain=dom2)
     cases = []
@@ -170,7 +253,9 @@ def run(chk: Check):
                f"{len(ys)} yield sites produce (file offset or None for sparse, run size)")
     _typestate(chk, ctx, "iter-runs")
 
-    # ---- _read ---------------------------------------------------------------------------------
+
+def _read_structure(chk: Check, hk):
+    R = chk.R
     rctx = chk.func(REL, "HDS._read")
     fh = R.self_attr(hk, "fh")
     parent = R.self_attr(hk, "parent")
